@@ -26,7 +26,12 @@ import (
 	"github.com/oasisprotocol/curve25519-voi/internal/verif/ref/refmul"
 )
 
-func main() { mc.Main("C11", run) }
+func main() {
+	mc.Main("C11", func(c *mc.Ctx) {
+		run(c)
+		encodeAfterHistoryR(c)
+	})
+}
 
 func hx(b []byte) string { return mc.Hex(b) }
 
